@@ -1,13 +1,13 @@
 SPECIFICATION Spec
 CONSTANTS
-  NPages = 12
+  NPages = 9
   PS = 2
-  R = 6
-  Branch = "x64"
+  R = 4
+  Branch = "a64"
   UnmapRejected = TRUE
-  Kernel = "mmap"
-  Gran = 1
-  AcceptTest = "le"
+  Kernel = "win"
+  Gran = 2
+  AcceptTest = "a64safe"
 INVARIANT InReach NoLeftover Bounded
 PROPERTY Terminates
 CHECK_DEADLOCK FALSE
